@@ -266,3 +266,5 @@ func (c *c11Flush) Nontrivial() bool {
 func (c *c11Flush) Kind() string { return "flush/rlimit" }
 
 var _ = errors.New
+
+func (c *c11Flush) Evals() int { return len(c.Limits) }
